@@ -423,6 +423,18 @@ class SNum:
         r = abs(b)
         if abs(r - 1.0) > 1e-15:
             if b.imag == 0 and b.real > 0:
+                # integer-valued exponent over (bounded) integer variables: fork over their values
+                vs = sorted(self.variables())
+                if vs and all(_ctx.var_kind(v) == 'int' for v in vs) and not any(a for (_m, a) in self.t):
+                    import z3
+
+                    from .sint import SInt
+
+                    val = self
+                    for v in vs:
+                        k = _ctx.cur().concretize_int(SInt(z3.Int(v)))
+                        val = val.substitute(v, float(k))
+                    return SNum.const(b.real ** val.const_value().real)
                 raise TypeError('symx: real base ** symbolic exponent leaves the ring (Escape)')
             raise TypeError('symx: non-unit base ** symbolic exponent')
         phi = cmath.phase(b)  # base = exp(i*phi)
